@@ -303,7 +303,7 @@ Lemma streams_facts : forall src, names_wf src ->
     col_good (map mode_of diffs) /\
     Forall col_good (cols (max_tokens diffs) (map d_toks (filter nondup diffs))).
 Proof.
-  intros src (Hne & Hlast & Hb & Hlen & _ & Hcnt).
+  intros src (Hne & Hlast & Hb & Hlen & Hcnt).
   pose proof (app_removelast_last 1 Hne) as Hsrc. rewrite Hlast in Hsrc.
   remember (removelast src) as body eqn:Ebody. clear Ebody. subst src.
   rewrite strip_last_nul_snoc in Hcnt |- *.
@@ -440,7 +440,7 @@ Qed.
 Theorem names_encode_ok : forall src, names_wf src -> exists bytes, names_encode src = NmOk bytes.
 Proof.
   intros src Hwf. pose proof (streams_facts src Hwf) as Hsf.
-  destruct Hwf as (Hne & Hlast & Hb & Hlen & _ & Hcnt).
+  destruct Hwf as (Hne & Hlast & Hb & Hlen & Hcnt).
   pose proof (app_removelast_last 1 Hne) as Hsrc. rewrite Hlast in Hsrc.
   remember (removelast src) as body eqn:Ebody. clear Ebody. subst src.
   rewrite strip_last_nul_snoc in Hsf, Hcnt.
